@@ -100,6 +100,11 @@ struct Mismatch {
     what: String,
 }
 
+/// TLC prints an empty function as an empty array
+fn flusher_ops(cfg: &Value) -> serde_json::Map<String, Value> {
+    cfg["flusherOps"].as_object().cloned().unwrap_or_default()
+}
+
 fn run_case(cfg: &Value, case: &Value, ln: usize) -> (Vec<Mismatch>, Value, Vec<Value>) {
     #[allow(non_snake_case)]
     let LONG = LONGS[ln % 2];
@@ -222,7 +227,7 @@ fn run_case(cfg: &Value, case: &Value, ln: usize) -> (Vec<Mismatch>, Value, Vec<
         }));
     }
     // flusher threads
-    for (name, op) in cfg["flusherOps"].as_object().unwrap() {
+    for (name, op) in flusher_ops(cfg) {
         let (sched, obs, sender, name, step_no, rec) = (sched.clone(), obs.clone(), sender.clone(), name.clone(), step_no.clone(), rec.clone());
         let op = op.as_str().unwrap().to_string();
         let op2 = op.clone();
@@ -298,7 +303,7 @@ fn run_case(cfg: &Value, case: &Value, ln: usize) -> (Vec<Mismatch>, Value, Vec<
     // wait until every thread reached its first point
     let names: Vec<String> = std::iter::once("recv".to_string())
         .chain(cfg["senderOps"].as_object().unwrap().keys().cloned())
-        .chain(cfg["flusherOps"].as_object().unwrap().keys().cloned())
+        .chain(flusher_ops(cfg).keys().cloned())
         .collect();
     for n in &names {
         if sched.wait_settled(n, STEP_TIMEOUT).is_none() {
@@ -329,9 +334,9 @@ fn run_case(cfg: &Value, case: &Value, ln: usize) -> (Vec<Mismatch>, Value, Vec<
         };
         // probe: every async flush that is waiting is re-polled, so a completion the moment it
         // becomes possible is observed (and decided at level A) even if the schedule never asks
-        for (f, op) in cfg["flusherOps"].as_object().unwrap() {
-            if op == "flushTokio" && sched.status(f) == Some(Status::Parked("tokio_wait")) && !(act == "FlushRet" && who == f) {
-                let _ = sched.step(f, Cmd::Go, STEP_TIMEOUT);
+        for (f, op) in flusher_ops(cfg) {
+            if op == "flushTokio" && sched.status(&f) == Some(Status::Parked("tokio_wait")) && !(act == "FlushRet" && who == f) {
+                let _ = sched.step(&f, Cmd::Go, STEP_TIMEOUT);
             }
         }
         let evs: Vec<(String, Event)> = sched.events.lock().unwrap().clone();
@@ -430,7 +435,7 @@ fn run_case(cfg: &Value, case: &Value, ln: usize) -> (Vec<Mismatch>, Value, Vec<
                 mism.push(Mismatch { class: "prop", step: steps.len(), what: format!("results of {s}: {:?}, specification says {:?}", got, want) });
             }
         }
-        for (f, want) in fin["fret"].as_object().unwrap() {
+        for (f, want) in fin["fret"].as_object().cloned().unwrap_or_default().iter() {
             let want = want.as_str().unwrap();
             let got = ob.fret.get(f).cloned().unwrap_or("none".into());
             if cfg["flusherOps"][f] == "flushTokio" && want == "none" {
@@ -446,7 +451,7 @@ fn run_case(cfg: &Value, case: &Value, ln: usize) -> (Vec<Mismatch>, Value, Vec<
                 mism.push(Mismatch { class: "prop", step: steps.len(), what: format!("callback {f} fired {} times", cnt.0) });
             }
         }
-        for (f, want) in fin["ffired"].as_object().unwrap() {
+        for (f, want) in fin["ffired"].as_object().cloned().unwrap_or_default().iter() {
             if cfg["flusherOps"][f] == "cbPanic" || cfg["flusherOps"][f] == "cbPark" {
                 let fired = ob.fired.get(f).map(|c| c.0).unwrap_or(0) > 0;
                 let want = want.as_str().unwrap() != "no";
